@@ -141,6 +141,8 @@ func (o C15Op) Coq() string {
 		return fmt.Sprintf("OSetInfo (Some (MkInfo %s %s %s))", coqBool(o.Oracle), coqU(c15StrID(o.Chain)), coqU(o.ClientID))
 	case "mkpair":
 		return "OCreatePair " + coqU(uint64(o.Pair))
+	case "rmpair":
+		return "ORemovePair " + coqU(uint64(o.Pair))
 	}
 	panic("c15 op kind " + o.Kind)
 }
@@ -240,6 +242,9 @@ type c15Env struct {
 	InstTotal     *big.Int
 	SetH          int64
 	LastEffective bool
+	// per pair: the timestamp of the last ACCEPTED update that wrote it since the pair's last (re-)creation,
+	// recorded by the stream itself
+	LastTS map[int]int64
 	Ops      []C15Op
 	Obs      []Ov
 	ID       int
@@ -249,7 +254,7 @@ type c15Env struct {
 func newC15Env(seed uint64, id int, nVals int) *c15Env {
 	e := NewL2Env(seed, 4, false)
 	r := NewRng(seed ^ 0xc15c15)
-	ce := &c15Env{E: e, R: r, AddrIDs: map[string]uint64{}, NextUnk: 900, Created: map[int]bool{}, ID: id}
+	ce := &c15Env{E: e, R: r, AddrIDs: map[string]uint64{}, NextUnk: 900, Created: map[int]bool{}, LastTS: map[int]int64{}, ID: id}
 	for i := 0; i < nVals; i++ {
 		sk := make([]byte, 32)
 		binary.BigEndian.PutUint64(sk, seed)
@@ -443,6 +448,8 @@ func (ce *c15Env) exec(o C15Op) ExecResult {
 				L1ClientId: o.Client, BridgeConfig: ophosttypes.BridgeConfig{OracleEnabled: o.Oracle}})
 		case "mkpair":
 			return nil, e.OK.CreateCurrencyPair(ctx, c15Pair(o.Pair))
+		case "rmpair": // the oracle module's own removal of a pair (deletes the pair with its quote)
+			return nil, e.OK.RemoveCurrencyPair(ctx, c15Pair(o.Pair))
 		}
 		panic("c15 exec kind " + o.Kind)
 	})
@@ -494,8 +501,12 @@ func (ce *c15Env) Do(o C15Op, rep *Report) bool {
 			}
 		case "mkpair":
 			ce.Created[o.Pair] = true
+			delete(ce.LastTS, o.Pair)
+		case "rmpair":
+			ce.Created[o.Pair] = false
+			delete(ce.LastTS, o.Pair)
 		}
-	} else if o.Kind == "execs" || o.Kind == "info" || o.Kind == "mkpair" {
+	} else if o.Kind == "execs" || o.Kind == "info" || o.Kind == "mkpair" || o.Kind == "rmpair" {
 		panic("c15: environment op failed: " + res.Err)
 	}
 	kind := "ERR"
@@ -589,8 +600,11 @@ func (ce *c15Env) monitor(rep *Report, step int, o C15Op, before, after c15State
 		}
 	}
 	if o.Kind != "oracle" {
-		if len(changed) > 0 {
-			viol("C15:price-changed-by-other-op", "a stored price changed without an oracle update", nil)
+		for _, pi := range changed {
+			if !(o.Kind == "rmpair" && pi == o.Pair && ok && !after.Quotes[pi].Exists) {
+				viol("C15:price-changed-by-other-op", "a stored price changed without an oracle update: "+c15PairNames[pi], nil)
+				break
+			}
 		}
 		return
 	}
@@ -673,11 +687,25 @@ func (ce *c15Env) monitor(rep *Report, step int, o C15Op, before, after c15State
 		if lhs.Cmp(rhs) < 0 || total.Sign() <= 0 {
 			noQuorum = append(noQuorum, fmt.Sprintf("%s: validly signed distinct power %s of %s (validators of the last installed set)", c15PairNames[pi], w, total))
 		}
-		// (5) timestamps strictly increase per pair
-		if before.Quotes[pi].Has && !(after.Quotes[pi].TS > before.Quotes[pi].TS) {
-			viol("C15:timestamp-not-increasing", fmt.Sprintf("%s rewritten with timestamp %d over stored %d", c15PairNames[pi], after.Quotes[pi].TS, before.Quotes[pi].TS), nil)
-			break
+	}
+	// (5) per pair the accepted timestamp strictly increases: compared with the timestamp of the last
+	// accepted update that wrote the pair since its last (re-)creation, as recorded by the stream itself
+	// (and with the quote that was stored before, which must say the same)
+	tsReported := false
+	for _, pi := range changed {
+		if !after.Quotes[pi].Has {
+			continue
 		}
+		last, has := ce.LastTS[pi]
+		if has && !(after.Quotes[pi].TS > last) && !tsReported {
+			tsReported = true
+			viol("C15:timestamp-not-increasing", fmt.Sprintf("%s written with timestamp %d although an earlier accepted update already wrote it with timestamp %d (no removal of the pair in between)",
+				c15PairNames[pi], after.Quotes[pi].TS, last), nil)
+		} else if before.Quotes[pi].Has && !(after.Quotes[pi].TS > before.Quotes[pi].TS) && !tsReported {
+			tsReported = true
+			viol("C15:timestamp-not-increasing", fmt.Sprintf("%s rewritten with timestamp %d over stored %d", c15PairNames[pi], after.Quotes[pi].TS, before.Quotes[pi].TS), nil)
+		}
+		ce.LastTS[pi] = after.Quotes[pi].TS
 	}
 	if len(noQuorum) > 0 {
 		viol("C15:no-quorum", "price changed with less than 2/3 of the recorded power behind validly signed commit votes of distinct validators: "+noQuorum[0], noQuorum)
@@ -760,6 +788,7 @@ type c15Gen struct {
 	rejected int
 	jitter   int
 	disrupt  int
+	acc        []C15Op // accepted oracle updates since the last installed set (candidates for replays)
 	foreign    []c15Entry // entries of the last validator-set update that was ignored while the configured client id was empty
 	foreignH   int64
 	wantClient string // the client id the bridge info of this case currently carries ("" = not completed yet)
@@ -1281,7 +1310,26 @@ func (g *c15Gen) noteIgnored(o C15Op) {
 	g.inSet, g.setH = keep, keepH
 }
 
+// replay re-submits the bytes of an earlier accepted update (by a current executor, in a new block);
+// the model-side data of its votes are recomputed for the current chain id
+func (g *c15Gen) replay(old C15Op) C15Op {
+	ce := g.ce
+	o := old
+	o.Note = "replay"
+	o.SenderID = 1
+	if len(ce.Execs) > 0 {
+		o.SenderID = ce.Execs[g.r.Intn(len(ce.Execs))]
+	}
+	o.Sender = ce.E.User(o.SenderID).Str
+	o.Votes = append([]C15Vote{}, old.Votes...)
+	for i := range o.Votes {
+		ce.finish(&o.Votes[i], o.Height, o.Round)
+	}
+	return o
+}
+
 func (g *c15Gen) applySet(o C15Op) {
+	g.acc = nil
 	// the harness's expectation of what is stored after a successful replacement
 	last := map[int]int64{}
 	var order []int
@@ -1372,12 +1420,59 @@ func genC15(seed uint64, tier string, outdir string) *Report {
 					g.retired, g.attack = nil, 0
 				}
 			}
-			switch r.Weighted([]int{70, 14, 5, 7, 4}) {
+			switch r.Weighted([]int{66, 13, 5, 6, 3, 5, 2}) {
+			case 5:
+				// the oracle module removes and re-creates a pair (the reserved timestamp pair or an ordinary
+				// one): only THAT pair's quote goes away.  Then an earlier accepted commit is replayed.
+				var live []int
+				for p := 0; p < 4; p++ {
+					if ce.Created[p] {
+						live = append(live, p)
+					}
+				}
+				if len(live) == 0 {
+					break
+				}
+				p := live[r.Intn(len(live))]
+				if ce.Created[0] && r.Chance(55) {
+					p = 0
+				}
+				do(C15Op{Kind: "rmpair", Pair: p})
+				if r.Chance(15) && len(g.acc) > 0 { // while the pair is gone
+					if do(g.replay(g.acc[r.Intn(len(g.acc))])) {
+						g.accepted++
+					} else {
+						g.rejected++
+					}
+				}
+				do(C15Op{Kind: "mkpair", Pair: p})
+				if len(g.acc) > 0 && r.Chance(75) {
+					k := r.Intn(len(g.acc))
+					if len(g.acc) > 1 && r.Chance(70) {
+						k = r.Intn(len(g.acc) - 1) // not the latest: a rollback
+					}
+					if do(g.replay(g.acc[k])) {
+						g.accepted++
+					} else {
+						g.rejected++
+					}
+				}
+			case 6:
+				if len(g.acc) > 0 { // plain replay of an earlier accepted commit
+					if do(g.replay(g.acc[r.Intn(len(g.acc))])) {
+						g.accepted++
+					} else {
+						g.rejected++
+					}
+				}
 			case 0:
 				o := g.oracleOp()
 				before := ce.readState()
 				if do(o) {
 					g.accepted++
+					if o.CommitOK && len(o.Votes) > 0 {
+						g.acc = append(g.acc, o)
+					}
 					after := ce.readState()
 					if after.Quotes[0].Has && (!before.Quotes[0].Has || after.Quotes[0].TS != before.Quotes[0].TS) {
 						g.lastTS = after.Quotes[0].TS
